@@ -788,8 +788,6 @@ def classify(case, obs):
     tree = case['tree']
     if 'crash' in obs or 'hang' in obs:
         return None
-    if case['kind'] == 'scale' and any(h[0] is None for h in case['hw'][:-1]):
-        return 'unused-outputs-collapse'
     return None
 
 
@@ -936,8 +934,8 @@ MANIFEST = {
                   'the hand-written model of builder/translator/VM (line-by-line, kernel additionally translated from source).  '
                   'Repaired in /repo: count-1 repetition played twice, int voltages (round 1); repetition loops replaying '
                   'entry-state dependent commands, zero-factor register aliasing plain voltages, AssertionError for a register '
-                  'shared across nesting depths, loop-index rebinding undone under a repetition (round 2).  Known finding left: '
-                  'unused outputs collapsing in _channel_transformations (hardware/awgs/base.py).',
+                  'shared across nesting depths, loop-index rebinding undone under a repetition, unused outputs shifting the '
+                  'hardware scaling of linspace commands (round 2).  No known finding left.',
     'technique': 'Coq proof over a hand-written executable model (kernel translated from source) + exact correspondence check '
                  'against the real pipeline',
     'design_ref': 'DESIGN.md §5 C17',
